@@ -72,15 +72,6 @@ def encZMopt (d : Dim) (mPresent : Bool) (b : BBox) (parts : List (List Pt)) : B
 theorem encZM_eq (d : Dim) (b : BBox) (parts : List (List Pt)) : encZM d b parts = encZMopt d true b parts := by
   unfold encZM encZMopt; simp
 
-/-- a vertex read back when the M block may be absent -/
-def Pt.readBackOpt (d : Dim) (mPresent : Bool) (p : Pt) : Pt :=
-  { x := p.x, y := p.y, z := if d.hasZ then p.z else F64.zero,
-    m := if d.hasM && mPresent then p.m.maxNoData else F64.noData }
-def Pt.readRawOpt (d : Dim) (mPresent : Bool) (p : Pt) : Pt :=
-  { x := p.x, y := p.y, z := if d.hasZ then p.z else F64.zero,
-    m := if d.hasM && mPresent then p.m else F64.noData }
-def BBox.readRawOpt (d : Dim) (mPresent : Bool) (b : BBox) : BBox := ⟨b.min.readRawOpt d mPresent, b.max.readRawOpt d mPresent⟩
-
 theorem Pt.readBackOpt_true (d : Dim) (p : Pt) : p.readBackOpt d true = p.readBack d := by
   simp [Pt.readBackOpt, Pt.readBack]
 theorem Pt.readBackOpt_true' (d : Dim) : Pt.readBackOpt d true = Pt.readBack d :=
